@@ -61,11 +61,18 @@ fn scalar_int_json(si: ty::ScalarInt, t: Ty<'_>) -> J {
 pub fn const_json<'tcx>(tcx: TyCtxt<'tcx>, c: &Const<'tcx>, owner: DefId) -> J {
     let t = c.ty();
     if let ty::FnDef(d, args) = t.kind() {
+        // a trait method named as a function item (`.map(Value::from)`): the impl it resolves to, as for a direct call
+        let tenv = TypingEnv::post_analysis(tcx, owner);
+        let resolved = match Instance::try_resolve(tcx, tenv, *d, args) {
+            Ok(Some(inst)) if inst.def_id() != *d => J::s(def_path(tcx, inst.def_id())),
+            _ => J::Null,
+        };
         return J::obj(vec![
             ("k", J::s("fn")),
             ("def", J::s(def_path(tcx, *d))),
             ("args", J::arr(args.iter().map(|a| J::s(ty::print::with_no_trimmed_paths!(format!("{}", a)))))),
             ("local", J::Bool(d.is_local())),
+            ("resolved", resolved),
         ]);
     }
     match c {
